@@ -240,7 +240,8 @@ def main(chk, replay=None):
     return chk.finish(cov, [
         "alpha = response classifiers and listing lexers of harness/c05_lib.py; a response counts as success only "
         "if the wire format says so and no exception escaped the connection handler; for plain Gopher (no status line) "
-        "additionally the server log must show that a handler accepted the request",
+        "additionally the server log must show that a handler accepted the request; 'answered' also means answered by "
+        "the protocol class that was asked (class name in the server log line of the request)",
         "the per-protocol client (request syntax, reference resolution) is harness code, but every request is "
         "re-derived by TLC from Links!Follow and a deviation stops the check as a machinery failure",
         "names: tokens over byte classes; '^' is materialised as the byte(s) listed in tier_parameters.hi",
